@@ -60,7 +60,7 @@ package dtlshandshake
 //@ define ivOK(x) (x > 0 && x <= 4611686018427387903)
 
 //@ func fsm12.wait
-//@ watch handleRetransmitTimeout handleWaitCancellation Parse Conn.WritePackets recv:Conn.RecvHandshake
+//@ watch handleRetransmitTimeout handleWaitCancellation Parse Conn.WritePackets recv:Conn.RecvHandshake time.NewTimer
 // (The channel returned by the interface call conn.RecvHandshake() has no stable source-level name;
 // the engine calls it value.t3 in wait and value.t0 in finish.)
 //@ define lastEvent() retAs("recv:Conn.RecvHandshake", 0, RecvHandshakeState{})
@@ -77,6 +77,10 @@ package dtlshandshake
 //@ ensures retransmitted-events-keep-interval: always("recv:Conn.RecvHandshake", "lastEvent().IsRetransmit") && !called("handleRetransmitTimeout") && !called("handleWaitCancellation") ==> s.retransmitInterval == old(s.retransmitInterval)
 //@ ensures interval-changes-only-on-event: !called("recv:Conn.RecvHandshake") && !called("handleRetransmitTimeout") && !called("handleWaitCancellation") ==> s.retransmitInterval == old(s.retransmitInterval)
 //@ ensures new-data-restores-initial: called("recv:Conn.RecvHandshake") && !lastEvent().IsRetransmit && !called("handleRetransmitTimeout") && !called("handleWaitCancellation") ==> s.retransmitInterval == s.cfg.InitialRetransmitInterval
+// The retransmit timer of the step is armed once, with the current (backed-off) interval, and the timer law is
+// applied to the flight's own retransmit flag.
+//@ ensures timer-armed-with-current-interval: ncalls("time.NewTimer") == 1 && argAs("time.NewTimer", 0, s.retransmitInterval) == old(s.retransmitInterval)
+//@ ensures timer-law-on-flight-flag: called("handleRetransmitTimeout") ==> argBool("handleRetransmitTimeout", 0) == old(s.retransmit)
 //@ ensures sends-nothing-itself: !called("Conn.WritePackets")
 //@ ensures progress-needs-event: (result0 == StatePreparing || result0 == StateFinished) ==> called("Parse")
 //@ ensures interval-stays-in-range: result0 != StateErrored ==> s.retransmitInterval > 0
@@ -87,6 +91,7 @@ package dtlshandshake
 //@ loop #1: no-event-yet: !called("recv:Conn.RecvHandshake") ==> s.retransmitInterval == old(s.retransmitInterval) && !called("Parse")
 //@ loop #1: last-event-law: called("recv:Conn.RecvHandshake") && !lastEvent().IsRetransmit ==> s.retransmitInterval == s.cfg.InitialRetransmitInterval
 //@ loop #1: only-retransmits-keep-interval: always("recv:Conn.RecvHandshake", "lastEvent().IsRetransmit") ==> s.retransmitInterval == old(s.retransmitInterval)
+//@ loop #1: timer-armed: ncalls("time.NewTimer") == 1 && argAs("time.NewTimer", 0, s.retransmitInterval) == old(s.retransmitInterval)
 //@ loop #1: timer-not-yet: !called("handleRetransmitTimeout") && !called("handleWaitCancellation") && !called("Conn.WritePackets")
 //@ end
 
@@ -115,7 +120,7 @@ package dtlshandshake
 
 //@ func fsm13.handlePreviousFlightRetransmit
 //@ watch sendACK fsm13.transitionAfterACK handleRetransmitTimeout
-//@ requires args: s != nil && s.cfg != nil && s.state != nil && s.state.Common != nil && ownConn(conn) && !isNil(ctx)
+//@ requires args: s != nil && s.cfg != nil && s.state != nil && ownConn(conn) && !isNil(ctx)
 //@ requires interval-range: ivOK(s.retransmitInterval)
 //@ ensures acks-first: result1 == nil ==> calledBefore("sendACK", "fsm13.transitionAfterACK")
 //@ ensures ack-failure-stops: result1 != nil ==> result0.state == 0 && !called("fsm13.transitionAfterACK")
@@ -124,22 +129,82 @@ package dtlshandshake
 //@ ensures treated-as-peer-retransmit: result1 == nil ==> argBool("fsm13.transitionAfterACK", 2)
 //@ end
 
+// WAITING (DTLS 1.3, RFC 9147 5.8): the retransmit timer of the step is armed once with the current (backed-off)
+// interval; the flight goes out again only through the timer law (timer expiry) or the per-event law of
+// handleReceivedFlight (ACK progress / peer retransmission, which itself goes through handleRetransmitTimeout);
+// total silence doubles the interval up to 60 s.
+
+//@ func recvHandshakeLease.release
+//@ noinline
+//@ end
+
+//@ func fsm13.wait
+// ("name!": only the calls made by wait itself - handleReceivedFlight applies the timer law too, inside)
+//@ watch handleRetransmitTimeout! handleWaitCancellation! fsm13.handleReceivedFlight time.NewTimer recv:Conn.RecvHandshake
+//@ requires args: s != nil && s.cfg != nil && s.state != nil && ownConn(conn) && !isNil(ctx)
+//@ requires interval-range: ivOK(s.retransmitInterval) && ivOK(s.cfg.InitialRetransmitInterval)
+//@ ensures w-timer-armed-with-current-interval: ncalls("time.NewTimer") == 1 && argAs("time.NewTimer", 0, s.retransmitInterval) == old(s.retransmitInterval)
+//@ ensures w-resend-only-by-a-law: result0 == StateSending ==> called("handleRetransmitTimeout!") || called("fsm13.handleReceivedFlight")
+//@ ensures w-silence-doubles: !called("fsm13.handleReceivedFlight") && result0 == StateSending && !s.cfg.DisableRetransmitBackoff ==> s.retransmitInterval == min(2*old(s.retransmitInterval), 60000000000)
+//@ ensures w-silence-constant-without-backoff: !called("fsm13.handleReceivedFlight") && result0 == StateSending && s.cfg.DisableRetransmitBackoff ==> s.retransmitInterval == min(old(s.retransmitInterval), 60000000000)
+//@ ensures w-silent-resend-needs-flag: !called("fsm13.handleReceivedFlight") && result0 == StateSending ==> called("handleRetransmitTimeout!") && old(s.retransmit)
+//@ ensures w-silent-non-retransmittable-never-resent: !called("fsm13.handleReceivedFlight") && !old(s.retransmit) ==> result0 != StateSending
+//@ ensures w-timer-law-on-flight-flag: called("handleRetransmitTimeout!") && !called("fsm13.handleReceivedFlight") ==> argBool("handleRetransmitTimeout!", 0) == old(s.retransmit)
+//@ ensures w-interval-changes-only-on-event: !called("fsm13.handleReceivedFlight") && !called("handleRetransmitTimeout!") && !called("handleWaitCancellation!") ==> s.retransmitInterval == old(s.retransmitInterval)
+//@ ensures w-progress-needs-event: (result0 == StatePreparing || result0 == StateFinished) ==> called("fsm13.handleReceivedFlight")
+//@ ensures w-one-timer-expiry: ncalls("handleRetransmitTimeout!") <= 1
+//@ ensures w-timer-expiry-ends-step: called("handleRetransmitTimeout!") ==> result0 == StateSending || result0 == StateWaiting
+//@ loop #1: frame: s.cfg == old(s.cfg) && s.state == old(s.state) && s.cfg.InitialRetransmitInterval == old(s.cfg.InitialRetransmitInterval) && s.cfg.DisableRetransmitBackoff == old(s.cfg.DisableRetransmitBackoff)
+//@ loop #1: interval-in-range: ivOK(s.retransmitInterval)
+//@ loop #1: timer-armed: ncalls("time.NewTimer") == 1 && argAs("time.NewTimer", 0, s.retransmitInterval) == old(s.retransmitInterval)
+//@ loop #1: no-event-yet: !called("fsm13.handleReceivedFlight") ==> s.retransmitInterval == old(s.retransmitInterval) && s.retransmit == old(s.retransmit)
+//@ loop #1: timer-not-yet: !called("handleRetransmitTimeout!") && !called("handleWaitCancellation!")
+//@ end
+
 // One received event (DTLS 1.3): the interval is restored to the configured initial value only
 // for an event that is not a retransmission; a retransmitted event leaves it to the timer law.
 
+// Parsing the received flight and moving on to the next flight are other properties' business (C03/C04/C13); here
+// they are opaque steps that do not touch the FSM's timer bookkeeping (inferred write sets).
+//@ func handshakeContext.parseReceivedFlight
+//@ noinline
+//@ end
+
+// Moving on to the next flight never yields WAITING or SENDING: the FSM prepares the next flight or finishes.
+//@ func handshakeContext.advanceAfterReceivedFlight
+//@ ensures next-is-preparing-or-finished: result1 == nil ==> result0.state == StatePreparing || result0.state == StateFinished
+//@ ensures error-is-zero-transition: result1 != nil ==> result0.state == StateErrored
+//@ end
+
+
 //@ func fsm13.handleReceivedFlight
-//@ watch handleRetransmitTimeout fsm13.transitionAfterACK fsm13.handlePreviousFlightRetransmit fsm13.parseReceivedFlight
-//@ requires args: s != nil && s.cfg != nil && s.state != nil && s.state.Common != nil && ownConn(conn) && !isNil(ctx)
+//@ watch handleRetransmitTimeout fsm13.transitionAfterACK fsm13.handlePreviousFlightRetransmit handshakeContext.parseReceivedFlight handshakeContext.advanceAfterReceivedFlight
+//@ requires args: s != nil && s.cfg != nil && s.state != nil && ownConn(conn) && !isNil(ctx)
 //@ requires interval-range: ivOK(s.retransmitInterval) && ivOK(s.cfg.InitialRetransmitInterval)
-//@ ensures retransmission-does-not-reset: received.IsRetransmit && result1 == nil && result0.state != StateSending && !called("fsm13.parseReceivedFlight") ==> s.retransmitInterval == old(s.retransmitInterval)
+// What a WAITING outcome leaves behind (the step loop of fsm13.wait goes on with it): same configuration and state
+// objects, an interval in range. (s.state.Common != nil is not carried: conn.WritePackets may lazily set it.)
+//@ ensures waiting-keeps-frame: result1 == nil && result0.state == StateWaiting ==> s.cfg == old(s.cfg) && s.state == old(s.state)
+//@    && s.cfg.InitialRetransmitInterval == old(s.cfg.InitialRetransmitInterval) && s.cfg.DisableRetransmitBackoff == old(s.cfg.DisableRetransmitBackoff)
+//@ ensures waiting-keeps-interval-in-range: result1 == nil && result0.state == StateWaiting ==> ivOK(s.retransmitInterval)
+//@ ensures retransmission-does-not-reset: received.IsRetransmit && result1 == nil && result0.state != StateSending && !called("handshakeContext.parseReceivedFlight") ==> s.retransmitInterval == old(s.retransmitInterval)
 // [dropped: demanded more than the property - a new ACK that triggers an immediate resend of the rest of the flight
 //  restores the initial interval and then applies the timer law once (2*initial); split into the two clauses below]
-//   ensures new-data-restores-initial: !received.IsRetransmit && result1 == nil && !called("fsm13.parseReceivedFlight") ==> s.retransmitInterval == s.cfg.InitialRetransmitInterval
-//@ ensures new-data-without-resend-restores-initial: !received.IsRetransmit && result1 == nil && result0.state != StateSending && !called("fsm13.parseReceivedFlight") ==> s.retransmitInterval == s.cfg.InitialRetransmitInterval
-//@ ensures new-data-with-resend-restarts-backoff: !received.IsRetransmit && result1 == nil && result0.state == StateSending && !called("fsm13.parseReceivedFlight") && !s.cfg.DisableRetransmitBackoff ==> s.retransmitInterval == min(2*s.cfg.InitialRetransmitInterval, 60000000000)
-//@ ensures resend-by-timer-law: result0.state == StateSending && result1 == nil && !called("fsm13.parseReceivedFlight") ==> called("fsm13.transitionAfterACK") || called("fsm13.handlePreviousFlightRetransmit")
-//@ ensures ack-only-event-is-not-peer-retransmit: !received.HasHandshake && len(received.ACKs) != 0 ==> called("fsm13.transitionAfterACK") && !argBool("fsm13.transitionAfterACK", 2) && !called("fsm13.parseReceivedFlight")
-//@ ensures duplicate-final-flight: received.HasHandshake && received.IsRetransmit && old(s.currentFlight) == dtlsflight13.Flight5 && (len(received.ACKs) == 0) ==> called("fsm13.handlePreviousFlightRetransmit") && !called("fsm13.parseReceivedFlight")
+//   ensures new-data-restores-initial: !received.IsRetransmit && result1 == nil && !called("handshakeContext.parseReceivedFlight") ==> s.retransmitInterval == s.cfg.InitialRetransmitInterval
+//@ ensures new-data-without-resend-restores-initial: !received.IsRetransmit && result1 == nil && result0.state != StateSending && !called("handshakeContext.parseReceivedFlight") ==> s.retransmitInterval == s.cfg.InitialRetransmitInterval
+//@ ensures new-data-with-resend-restarts-backoff: !received.IsRetransmit && result1 == nil && result0.state == StateSending && !called("handshakeContext.parseReceivedFlight") && !s.cfg.DisableRetransmitBackoff ==> s.retransmitInterval == min(2*s.cfg.InitialRetransmitInterval, 60000000000)
+//@ ensures resend-by-timer-law: result0.state == StateSending && result1 == nil && !called("handshakeContext.parseReceivedFlight") ==> called("fsm13.transitionAfterACK") || called("fsm13.handlePreviousFlightRetransmit")
+// The same laws on every path, including the ones through the flight parser and the step to the next flight (h3):
+// parsing / advancing never touch the interval. (Needs the write set of conn.HandleQueuedPackets to be known: see the
+// replay-marker assumption in contracts/verif_contracts_c20.go.)
+//@ ensures retransmission-never-resets: received.IsRetransmit && result1 == nil && result0.state != StateSending ==> s.retransmitInterval == old(s.retransmitInterval)
+//@ ensures new-data-always-restores-initial: !received.IsRetransmit && result1 == nil && result0.state != StateSending ==> s.retransmitInterval == s.cfg.InitialRetransmitInterval
+//@ ensures new-data-resend-always-restarts-backoff: !received.IsRetransmit && result1 == nil && result0.state == StateSending && !s.cfg.DisableRetransmitBackoff ==> s.retransmitInterval == min(2*s.cfg.InitialRetransmitInterval, 60000000000)
+//@ ensures resend-always-by-timer-law: result0.state == StateSending && result1 == nil ==> called("fsm13.transitionAfterACK") || called("fsm13.handlePreviousFlightRetransmit") || called("handshakeContext.advanceAfterReceivedFlight")
+//@ ensures interval-only-initial-or-timer-law: !called("handleRetransmitTimeout") && !called("fsm13.transitionAfterACK") && !called("fsm13.handlePreviousFlightRetransmit")
+//@    ==> s.retransmitInterval == old(s.retransmitInterval) || (!received.IsRetransmit && s.retransmitInterval == s.cfg.InitialRetransmitInterval)
+//@ ensures parsed-flight-retransmit-flag: called("handshakeContext.parseReceivedFlight") && called("fsm13.transitionAfterACK") ==> argBool("fsm13.transitionAfterACK", 2) == received.IsRetransmit
+//@ ensures ack-only-event-is-not-peer-retransmit: !received.HasHandshake && len(received.ACKs) != 0 ==> called("fsm13.transitionAfterACK") && !argBool("fsm13.transitionAfterACK", 2) && !called("handshakeContext.parseReceivedFlight")
+//@ ensures duplicate-final-flight: received.HasHandshake && received.IsRetransmit && old(s.currentFlight) == dtlsflight13.Flight5 && (len(received.ACKs) == 0) ==> called("fsm13.handlePreviousFlightRetransmit") && !called("handshakeContext.parseReceivedFlight")
 //@ end
 
 // Post-handshake flights (KeyUpdate, NewSessionTicket): same backoff law on each timer expiry.
@@ -160,4 +225,117 @@ package dtlshandshake
 //@ ensures deadline-from-now: result == nil ==> argAs("Time.Add", 0, now) == now
 //@ ensures deadline-stored: result == nil ==> flight.NextRetransmit == retAs("Time.Add", 0, now)
 //@ ensures failed-write-keeps-deadline: result != nil ==> flight.NextRetransmit == old(flight.NextRetransmit) && !called("Time.Add")
+//@ ensures flights-map-kept: sameRef(p.flights, old(p.flights)) && forallKey(p.flights, func(k postHandshakeFlightID) bool { return old(hasKey(p.flights, k)) && p.flights[k] == old(p.flights[k]) })
+//@ ensures other-flights-keep-interval: forallKey(p.flights, func(k postHandshakeFlightID) bool { return p.flights[k] != flight ==> p.flights[k].RetransmitInterval == old(p.flights[k].RetransmitInterval) })
+//@ end
+
+// Timer expiry: only flights whose own deadline has passed (not after `now`) are sent again, each through the backoff
+// law above with the caller's clock value and backoff switch.
+//@ define RPF(k, e) argAs("postHandshake.retransmitPostHandshakeFlight", k, e)
+//@ define FLIGHTS_IV(p) forallKey(p.flights, func(k postHandshakeFlightID) bool { return p.flights[k] != nil && ivOK(p.flights[k].RetransmitInterval) })
+
+//@ func postHandshake.retransmitPostHandshake
+//@ watch postHandshake.retransmitPostHandshakeFlight Time.After
+//@ requires args: p != nil && ownConn(conn) && !isNil(ctx)
+//@ requires flights-intervals: FLIGHTS_IV(p)
+//@ ensures only-expired-flights-resent: always("postHandshake.retransmitPostHandshakeFlight", "called(\"Time.After\") && !retBool(\"Time.After\", 0)")
+//@ ensures deadline-compared-with-now: always("Time.After", "argAs(\"Time.After\", 1, now) == now")
+//@ ensures clock-and-switch-passed-on: always("postHandshake.retransmitPostHandshakeFlight", "RPF(4, now) == now && RPF(5, disableRetransmitBackoff) == disableRetransmitBackoff")
+//@ ensures flights-intervals-kept: FLIGHTS_IV(p)
+//@ ensures error-stops: result != nil ==> sameRef(result, retErr("postHandshake.retransmitPostHandshakeFlight", 0))
+//@ ensures nothing-expired-nothing-sent: !called("Time.After") ==> !called("postHandshake.retransmitPostHandshakeFlight")
+//@ loop #1: frame: sameRef(p.flights, old(p.flights)) && FLIGHTS_IV(p)
+//@ loop #1: only-expired-flights-resent: always("postHandshake.retransmitPostHandshakeFlight", "called(\"Time.After\") && !retBool(\"Time.After\", 0)")
+//@ loop #1: deadline-compared-with-now: always("Time.After", "argAs(\"Time.After\", 1, now) == now")
+//@ loop #1: clock-and-switch-passed-on: always("postHandshake.retransmitPostHandshakeFlight", "RPF(4, now) == now && RPF(5, disableRetransmitBackoff) == disableRetransmitBackoff")
+//@ loop #1: all-ok-so-far: called("postHandshake.retransmitPostHandshakeFlight") ==> isNil(retErr("postHandshake.retransmitPostHandshakeFlight", 0))
+//@ loop #1: nothing-expired-nothing-sent: !called("Time.After") ==> !called("postHandshake.retransmitPostHandshakeFlight")
+//@ end
+
+// First transmission of a reliable post-handshake flight: the interval starts at the configured initial value and the
+// first deadline is "time of sending + that interval"; exactly one transmission.
+
+//@ define KUF17() retAs("postHandshake.buildKeyUpdateFlight", 0, flight)
+//@ define NSF17() retAs("postHandshake.prepareNewSessionTicket", 0, flight)
+
+//@ func postHandshake.startKeyUpdate
+//@ watch Conn.WritePackets postHandshake.buildKeyUpdateFlight Time.Add time.Now
+//@ ensures timer-starts-at-configured-interval: result == nil ==> KUF17().RetransmitInterval == p.initialRetransmitInterval
+//@ ensures timer-armed-once: result == nil ==> ncalls("Time.Add") == 1 && ncalls("time.Now") == 1
+//@ ensures timer-deadline-is-now-plus-interval: result == nil ==> argAs("Time.Add", 1, p.initialRetransmitInterval) == KUF17().RetransmitInterval
+//@    && argAs("Time.Add", 0, flight.NextRetransmit) == retAs("time.Now", 0, flight.NextRetransmit)
+//@ ensures timer-deadline-stored: result == nil ==> KUF17().NextRetransmit == retAs("Time.Add", 0, flight.NextRetransmit)
+//@ ensures timer-armed-after-send: result == nil ==> calledBefore("Conn.WritePackets", "time.Now")
+//@ ensures timer-failed-send-arms-nothing: result != nil ==> !called("Time.Add")
+//@ end
+
+//@ func postHandshake.startNewSessionTicket
+//@ watch Conn.WritePackets postHandshake.prepareNewSessionTicket Time.Add time.Now
+//@ requires args: p != nil && p.state != nil && ownConn(conn)
+//@ ensures timer-starts-at-configured-interval: result == nil ==> NSF17().RetransmitInterval == p.initialRetransmitInterval
+//@ ensures timer-armed-once: result == nil ==> ncalls("Time.Add") == 1 && ncalls("time.Now") == 1
+//@ ensures timer-deadline-is-now-plus-interval: result == nil ==> argAs("Time.Add", 1, p.initialRetransmitInterval) == NSF17().RetransmitInterval
+//@    && argAs("Time.Add", 0, flight.NextRetransmit) == retAs("time.Now", 0, flight.NextRetransmit)
+//@ ensures timer-deadline-stored: result == nil ==> NSF17().NextRetransmit == retAs("Time.Add", 0, flight.NextRetransmit)
+//@ ensures timer-sends-once: ncalls("Conn.WritePackets") <= 1 && (result == nil ==> ncalls("Conn.WritePackets") == 1)
+//@ ensures timer-failed-send-arms-nothing: result != nil ==> !called("Time.Add")
+//@ ensures timer-flight-registered: result == nil ==> NSF17() != nil && p.flights[NSF17().ID] == NSF17()
+//@ ensures state-kept: p.state == old(p.state)
+//@ end
+
+// Every registered flight keeps an interval in (0, 2^62): new flights start at the configured interval (range assumption
+// of the property), retransmitPostHandshakeFlight doubles with the 60 s cap.
+
+//@ func postHandshake.startKeyUpdate
+//@ requires timer-flights-intervals: FLIGHTS_IV(p) && ivOK(p.initialRetransmitInterval)
+//@ ensures timer-flights-intervals-kept: FLIGHTS_IV(p)
+//@ end
+
+//@ func postHandshake.startNewSessionTicket
+//@ requires timer-flights-intervals: FLIGHTS_IV(p) && ivOK(p.initialRetransmitInterval)
+//@ ensures timer-flights-intervals-kept: FLIGHTS_IV(p)
+//@ end
+
+//@ func postHandshake.startPostHandshakeCommand
+//@ requires timer-flights-intervals: FLIGHTS_IV(p) && ivOK(p.initialRetransmitInterval)
+//@ ensures timer-flights-intervals-kept: FLIGHTS_IV(p)
+//@ ensures timer-config-kept: p.initialRetransmitInterval == old(p.initialRetransmitInterval)
+//@ end
+
+//@ func postHandshake.startQueuedPostHandshake
+//@ requires timer-flights-intervals: FLIGHTS_IV(p) && ivOK(p.initialRetransmitInterval)
+//@ ensures timer-flights-intervals-kept: FLIGHTS_IV(p)
+//@ ensures timer-config-kept: p.initialRetransmitInterval == old(p.initialRetransmitInterval)
+//@ loop #1: timer-flights-intervals: FLIGHTS_IV(p)
+//@ loop #1: timer-config-kept: p.initialRetransmitInterval == old(p.initialRetransmitInterval)
+//@ end
+
+// FINISHED (DTLS 1.3): one event per step. Reliable post-handshake flights are sent again only when the timer armed by
+// nextTimer fires, through retransmitPostHandshake with the timer's clock value and the configured backoff switch; a
+// received event or a queued command never triggers a retransmission by itself.
+
+//@ func postHandshake.nextTimer
+//@ noinline
+//@ end
+
+//@ func postHandshake.initialize
+//@ noinline
+//@ end
+
+// TIMEW() is only a type witness (time.Time) for argAs/retAs.
+//@ define TIMEW() s.postHandshake.flights[postHandshakeFlightID{}].NextRetransmit
+//@ func fsm13.finish
+//@ watch postHandshake.retransmitPostHandshake postHandshake.handlePostHandshakeReceive postHandshake.startQueuedPostHandshake postHandshake.nextTimer recv:Conn.RecvHandshake recv:postHandshake.nextTimer#1
+//@ requires args: s != nil && s.cfg != nil && s.postHandshake != nil && s.postHandshake.state != nil && ownConn(conn) && !isNil(ctx)
+//@ requires flights: FLIGHTS(s.postHandshake) && FLIGHTS_IV(s.postHandshake) && ivOK(s.postHandshake.initialRetransmitInterval)
+//@ ensures f-resend-only-on-timer: called("postHandshake.retransmitPostHandshake") ==> called("recv:postHandshake.nextTimer#1") && !called("recv:Conn.RecvHandshake") && !called("postHandshake.handlePostHandshakeReceive")
+//@ ensures f-resend-at-most-once: ncalls("postHandshake.retransmitPostHandshake") <= 1
+//@ ensures f-timer-clock-and-switch: called("postHandshake.retransmitPostHandshake") ==> argBool("postHandshake.retransmitPostHandshake", 4) == s.cfg.DisableRetransmitBackoff
+//@ ensures f-timer-clock: called("postHandshake.retransmitPostHandshake") ==> argAs("postHandshake.retransmitPostHandshake", 3, TIMEW()) == retAs("recv:postHandshake.nextTimer#1", 0, TIMEW())
+//@ ensures f-received-goes-to-handler: called("recv:Conn.RecvHandshake") ==> called("postHandshake.handlePostHandshakeReceive") && !called("postHandshake.retransmitPostHandshake")
+//@ ensures f-queue-started-before-waiting: calledBefore("postHandshake.startQueuedPostHandshake", "postHandshake.nextTimer") || !called("postHandshake.nextTimer")
+//@ ensures f-timer-from-nextTimer: called("recv:postHandshake.nextTimer#1") ==> called("postHandshake.nextTimer")
+//@ ensures f-one-event-per-step: ncalls("recv:Conn.RecvHandshake") <= 1 && ncalls("postHandshake.handlePostHandshakeReceive") <= 1
+//@ ensures f-outcomes: result0 == StateFinished || result0 == StateErrored
+//@ ensures f-errors-stop: result1 != nil ==> result0 == StateErrored
 //@ end
